@@ -108,7 +108,7 @@ pub fn case(ctx: &Ctx, w: usize, h: usize, k: u64, rep: &mut Report) {
 pub fn run(ctx: &Ctx) -> (Report, String) {
     let maxd: usize = if ctx.stage == "miri" { 12 } else if ctx.tier == Tier::Thorough { 200 } else { 80 };
     let maxd = (maxd as u64 * ctx.scale_pct.min(100) / 100).max(10) as usize;
-    let ks: u64 = 3;
+    let ks: u64 = if ctx.miri() { 1 } else { 3 };
     let reps = par_shards(maxd, ctx.threads, |wi| {
         let mut rep = Report::new();
         let w = wi + 1;
